@@ -460,10 +460,13 @@ qb_log_target_format(int32_t target,
 	}
 	pthread_rwlock_unlock(&_formatlock);
 
+	/*
+	 * always terminate here as well: the ellipsis below may overwrite
+	 * the place of a stripped trailing newline
+	 */
+	output_buffer[output_buffer_idx] = '\0';
 	if (output_buffer_idx > 0 && output_buffer[output_buffer_idx - 1] == '\n') {
 		output_buffer[output_buffer_idx - 1] = '\0';
-	} else {
-		output_buffer[output_buffer_idx] = '\0';
 	}
 
 	/* Indicate truncation */
